@@ -239,6 +239,7 @@ func (e *routerEnv) observe() string {
 }
 
 type routerResult struct {
+	timing  bool
 	actions []string
 	obs     []string
 	env     *routerEnv
@@ -285,15 +286,30 @@ func runRouterScenario(sc routerScenario) *routerResult {
 		case "wait":
 			time.Sleep(routerWait)
 			// the list order after a rebuild is the map's iteration order: it is an input of the model
-			list, _, _, _, _, _, _ := e.c.VerifClientSnapshot()
-			rec = "wait " + orDash(strings.Join(list, ","))
+			list, _, _, pos, _, _, _ := e.c.VerifClientSnapshot()
+			rec = fmt.Sprintf("wait %s %d", orDash(strings.Join(list, ",")), pos)
 		case "route", "gos", "rts", "pings", "ctxs", "streams":
 			form := map[string]string{"route": "call", "gos": "go", "rts": "rt", "pings": "ping", "ctxs": "ctx", "streams": "stream"}[f[0]]
 			n := atoi(f[1])
+			if l0, _, _, _, _, _, _ := e.c.VerifClientSnapshot(); len(l0) == 0 && e.dirAddr == "" || e.dirAddr == "-" && len(l0) == 0 {
+				res.timing = true // nothing is live: the calls wait for the background detector
+			}
+			e.rt.mu.Lock()
+			before := len(e.rt.log)
+			e.rt.mu.Unlock()
 			for i := 0; i < n; i++ {
 				next++
+				t0 := time.Now()
 				e.start(next, form)
 				e.waitCalls(2 * time.Second) // sequential calls
+				if time.Since(t0) > 25*time.Millisecond {
+					res.timing = true // a call had to wait for the detector: outcome depends on its phase
+				}
+			}
+			if sc.Policy == "rand" {
+				e.rt.mu.Lock()
+				rec = fmt.Sprintf("%s %d %s", f[0], n, orDash(strings.Join(e.rt.log[before:], ",")))
+				e.rt.mu.Unlock()
 			}
 		case "park": // park n form : n concurrent calls that have to wait for a live target
 			n := atoi(f[1])
@@ -543,7 +559,7 @@ func routerCorpus() []routerScenario {
 	mk("waiters-close", "rr", "health A 0", "update A", "wait", "park 2 call", "park 1 ctx", "park 1 go", "close", "settle", "route 1", "gos 1", "close")
 	mk("director", "rr", "health A 1", "health Z 1", "update A", "wait", "director Z", "route 2", "director -", "route 2")
 	mk("random", "rand", "health A 1", "health B 1", "health C 1", "update A,B,C", "wait", "route 12", "health C 0", "route 6", "wait", "route 6")
-	mk("least", "least", "health A 1", "health B 1", "health C 1", "update A,B,C", "wait", "setlat A 500", "setlat B 300", "setlat C 900", "route 1", "setlat B 2000", "route 1", "setlat A 5000", "route 1")
+	mk("least", "least", "health A 1", "health B 1", "health C 1", "update A,B,C", "wait", "setlat A 500", "setlat B 300", "setlat C 900", "gos 1", "gos 1", "setlat B 2000", "gos 2", "setlat A 5000", "rts 2")
 	mk("least-probe-rotation", "leastprobe", "health A 1", "health B 1", "health C 1", "update A,B,C", "wait", "route 6")
 	mk("fallback", "rr", "health A 1", "update A", "wait", "route 1", "fallback 300", "park 2 call", "sleep 400", "wait", "settle", "route 1")
 	return out
@@ -578,7 +594,11 @@ func genRouterScenario(r *prng.R) routerScenario {
 				sc.Actions = append(sc.Actions, "wait")
 			}
 		case x < 82:
-			sc.Actions = append(sc.Actions, fmt.Sprintf("%s %d", []string{"route", "route", "gos", "rts", "pings", "ctxs"}[r.Intn(6)], 1+r.Intn(6)))
+			forms := []string{"route", "route", "gos", "rts", "pings", "ctxs"}
+			if sc.Policy == "least" {
+				forms = []string{"gos", "rts"} // the blocking forms update the latency estimate with a measured duration
+			}
+			sc.Actions = append(sc.Actions, fmt.Sprintf("%s %d", forms[r.Intn(len(forms))], 1+r.Intn(6)))
 		case x < 88:
 			if sc.Policy == "least" {
 				sc.Actions = append(sc.Actions, fmt.Sprintf("setlat %s %d", addrs[r.Intn(4)], 100+r.Intn(5000)))
@@ -655,7 +675,12 @@ func runOneRouter(i int, sc routerScenario, seed uint64) *scenarioOut {
 		inl = append(inl, a)
 		iml = append(iml, res.obs[j])
 	}
-	out.Streams = map[string][2][]string{"r": {inl, iml}}
+	if !res.timing {
+		// scenarios in which a call had to wait for the background detector are monitor-only
+		out.Streams = map[string][2][]string{"r": {inl, iml}}
+	} else {
+		out.Counters["timing-dependent-scenarios"]++
+	}
 	out.Key = sc.Policy + " " + strings.Join(sc.Actions, ";")
 	out.Counters["actions"] = len(res.actions)
 	for _, a := range res.actions {
